@@ -8,6 +8,7 @@ import OmplModel.Proofs.CopySig
 import OmplModel.Proofs.CopyWrapNames
 import OmplModel.Proofs.CopyScoped
 import OmplModel.Proofs.CopyKeyed
+import OmplModel.Model.CopyEvolve
 /-!
 C09 — copies and persisted data reproduce states and planner graphs exactly.
 
@@ -498,5 +499,43 @@ theorem extractStateStorage_isomorphic (g : Graph) (order : List Nat) (hW : g.WF
 
 example : extractStorage { verts := [⟨0, [1]⟩, ⟨0, [2]⟩, ⟨0, [3]⟩], edges := [⟨0, 2, 0, none⟩, ⟨0, 1, 0, none⟩, ⟨2, 0, 0, none⟩] } [2, 0, 1]
     = { states := [[3], [1], [2]], md := [[1], [0, 2], []] } := by decide
+
+/-! ## round 10b: spaces that change after `setup()` and are set up again -/
+
+/-- After `setup()` the cached tables are those of the structure the object has **now**, whatever happened before (earlier
+setups, `addDimension`, `addSubspace` at any depth, `setName`, `lock`, weights): two objects with different histories and the
+same current structure have the same value locations, substate table and `copyToReals`. -/
+theorem locations_history_independent (o₁ o₂ : SpObj) (h₁ h₂ : List Step) (hc : (o₁.run h₁).cur = (o₂.run h₂).cur) :
+    (o₁.run h₁).setup.valueLocations = valueLocationsF (o₁.run h₁).cur ∧
+    (o₁.run h₁).setup.substates = substateLocs (o₁.run h₁).cur ∧
+    (o₁.run h₁).setup.valueLocations = (o₂.run h₂).setup.valueLocations ∧
+    (o₁.run h₁).setup.substates = (o₂.run h₂).setup.substates ∧
+    ∀ st, (o₁.run h₁).setup.copyToReals st = (o₂.run h₂).setup.copyToReals st := by
+  refine ⟨rfl, rfl, ?_, ?_, ?_⟩
+  · simp [SpObj.setup, SpObj.valueLocations, hc]
+  · simp [SpObj.setup, SpObj.substates, hc]
+  · intro st; simp [SpObj.setup, SpObj.copyToReals, SpObj.valueLocations, hc]
+
+example : (({ cur := .real 1 2 } : SpObj).run [.setup, .edit (.addDim 1), .setup]).valueLocations.length = 3 ∧
+    (({ cur := .compound 0 [.so2 1] } : SpObj).run [.setup, .edit (.addSub 0 (.real 2 2)), .setup]).substates
+      = substateLocs (.compound 0 [.so2 1, .real 2 2]) := by decide
+
+/-- the reals round trip for a space with an arbitrary history, once it is set up: every double of the *current* structure
+is converted (none dropped), and back -/
+theorem reals_roundtrip_after_history (o : SpObj) (h : List Step) (st : St) (hf : fits (o.run h).cur st = true) :
+    (o.run h).setup.copyFromReals st ((o.run h).setup.copyToReals st) = st ∧
+    ((o.run h).setup.copyToReals st).length = nReals (o.run h).cur ∧
+    ∀ rs, rs.length = nReals (o.run h).cur →
+      (o.run h).setup.copyToReals ((o.run h).setup.copyFromReals st rs) = rs := by
+  have hr := reals_roundtrip_repaired (o.run h).cur st hf
+  refine ⟨hr.1, ?_, hr.2.1⟩
+  show ((valueLocationsF (o.run h).cur).map _).length = _
+  rw [List.length_map]
+  exact (valueLocations_repaired_enumerates (o.run h).cur).2.1
+
+/-- non-vacuity, and what the seeded variant "compute the locations only once" loses: the added dimension -/
+example : ((({ cur := .real 1 2 } : SpObj).setup.edit (.addDim 1)).setup.copyToReals (.leaf [.f64 7, .f64 8, .f64 9])) = [7, 8, 9] ∧
+    ((({ cur := .real 1 2 } : SpObj).setupIfEmpty.edit (.addDim 1)).setupIfEmpty.copyToReals (.leaf [.f64 7, .f64 8, .f64 9])) = [7, 8] := by
+  decide
 
 end OmplModel.Props.C09
